@@ -267,6 +267,18 @@ theorem add_conserves {env : Env} {s s' : State} {m : MsgAdd} {r : Resp} (h : ad
     exact core false 0 0 pool _ _ _ (Nat.le_refl _) (fun _ => ⟨rfl, rfl⟩) (by simpa using hbank)
 
 
+/-! ## the executable predicate the driver evaluates holds of every rejected model transition -/
+
+open Spec in
+theorem sameState_refl (s : State) : sameState s s = true := by
+  simp [sameState]
+
+open Spec in
+theorem rejected_unchanged_monitor (env : Env) (s : State) (op : Op) (e : Rej) (h : step env s op = .error e) :
+    c02_rejectedUnchanged { env := env, pre := s, op := op, ok := false, resp := .none, post := exec env s op } = true := by
+  rw [rejected_unchanged env s op e h]
+  simp [c02_rejectedUnchanged, sameState_refl]
+
 /-! ## non-vacuity: each kind of message succeeds on a concrete non-trivial state -/
 
 example : (step exEnv exState exSell).toBool = true := by decide +kernel
